@@ -7,14 +7,13 @@ def jobs(tier):
     for alg in ('cdec', 'c23', 'c34'):
         for n in (2, 3, 4):
             J.append(job(alg, n, checks=ck))
-    for alg in ('cdec', 'c23'):
-        J.append(job(alg, 5, checks=ck, order='desc'))
+    for alg in ('cdec', 'c23', 'c34'):
+        J.append(job(alg, 5, checks=ck)); J.append(job(alg, 6, checks=ck, order='desc')); J.append(job(alg, 7, checks=ck, order='desc'))
     if tier == 'thorough':
-        for alg in ('cdec', 'c23'):
-            J.append(job(alg, 5, checks=ck)); J.append(job(alg, 6, checks=ck, order='desc'))
-        J.append(job('c34', 5, checks=ck)); J.append(job('c34', 6, checks=ck, order='desc'))
+        for alg in ('cdec', 'c23', 'c34'):
+            J.append(job(alg, 8, checks=ck, order='desc', mandatory=False)); J.append(job(alg, 6, checks=ck, mandatory=False))
     return J
 
 
 ASSUMPTIONS = ['S1 numpy shim', 'S2 exact arithmetic', 'OPT from the expansion oracle over all assignments']
-OUTSIDE = ['more than 5 (quick) / 6 (thorough) items', 'planted instances with hundreds of items', 'published worst-case families (13-26 items)']
+OUTSIDE = ['more than 7 (quick) / 8 (thorough) items', 'planted instances with hundreds of items', 'published worst-case families (13-26 items)']
